@@ -1,5 +1,6 @@
 """which properties are claimed, with the MANIFEST texts"""
 TECH = 'contract-based deductive verification: sidecar contracts on the real source, self-written AST->SMT VC generator, z3 (polynomial normal form / LIA / NRA)'
+TECH_LEAN = TECH + '; one purely mathematical lemma over the contracts (banded LDL^T recurrences => A x = b) machine-checked by Lean 4 / Mathlib'
 NOTE = ('Exact real arithmetic instead of floating point; numba compilation trusted; the VC generator pyvc and z3 are trusted '
         '(guarded by canaries, hypothesis-satisfiability checks and concrete cross-checks on every run); dependency contracts of '
         'numpy/itertools/scipy listed in the evidence file are assumed.')
@@ -13,34 +14,41 @@ CLAIMED = {
                 text='Proof, for every grid shape / stencil position / array content, that core.amat_x equals curl^T M_f curl + M_e on every '
                      'interior edge, that PEC rows are inert, frame and bounds; symmetry and curl-curl(grad)=0 on the code\'s own expression; '
                      'bounded jit==py_func==spec cross-check.'),
-    'C03': dict(ref='5 (C03)', tech=TECH, note=NOTE + ' Non-zero pivots of the LDL^T factorisation are a documented precondition.',
+    'C03': dict(ref='5 (C03)', tech=TECH_LEAN, note=NOTE + ' Non-zero pivots of the LDL^T factorisation are a documented precondition.',
                 text='Proof of the master identity (assembled block system == C02 operator restricted to the relaxed block, for all values of the '
                      'unknowns) for the point smoother and the three line smoothers through the real blocks_to_amat, both sweep directions, '
-                     'symbolic grid and block position; write-back map, PEC frame, affinity, bounds; core.solve end-to-end for n=6.'),
-    'C04': dict(ref='5 (C04)', tech=TECH, note=NOTE + ' WF(grid) (cell centres are node midpoints, coarse nodes every second node) and the RegularGridProlongator contract (bilinear hat interpolation; its body is covered by a bounded concrete check only) are assumed.',
+                     'symbolic grid and block position; write-back map, PEC frame, affinity, bounds; core.solve for every number of unknowns: per-cell loop invariants refine the code to the banded LDL^T '
+                     'recurrences, and a Lean 4 / Mathlib lemma (re-checked on every run) shows that the recurrences solve the system (uniquely for non-zero pivots); smoothing() dispatch and frame.'),
+    'C04': dict(ref='5 (C04)', tech=TECH, note=NOTE + ' WF(grid) (cell centres are node midpoints, coarse nodes every second node) is assumed; the numpy layout contracts used for RegularGridProlongator (broadcast/ravel/reshape in Fortran order, searchsorted, gather) are listed in the evidence.',
                 text='Proof that core.restrict equals the transpose of the spec prolongation (piecewise constant x bilinear hats) on every interior coarse edge '
                      'for all seven patterns on arbitrarily stretched symbolic grids, given the contract of restrict_weights which is itself proved against the '
                      'linear hat functions; hat weights non-negative and summing to one; _restrict_model_parameters sums exactly the fine-cell children '
                      '(slice algebra); restriction()/_get_restriction_weights wiring incl. anisotropy aliasing on all paths; prolongation() adds the interpolated slice of coarse index I '
-                     'to the interior of fine index 2I, 2I+1 (or I) of the same component and writes nothing else, for all seven patterns and any grid size.'),
+                     'to the interior of fine index 2I, 2I+1 (or I) of the same component and writes nothing else, for all seven patterns and any grid size; the interpolator class RegularGridProlongator itself '
+                     '(executed from source on point-wise values) returns the bilinear hat interpolant for symbolic coarse / fine node vectors.'),
     'C05': dict(ref='5 (C05)', tech=TECH, note=NOTE + ' Callee summaries (restriction halves exactly the pattern directions; residual/smoothing do not touch cycling state) are assumed here and discharged under C04/C01.',
                 text='Proof over all paths of _current_sc_dir/_current_lr_dir, _max_level (loop invariant with the spec function H), parameter '
                      'set-up, and multigrid (recursion invariant, V/W/F child-call structure, one generic fine-grid cycle): unbounded in shape, level and limits.'),
     'C07': dict(ref='5 (C07)', tech=TECH, note=NOTE + ' The two linear solves and the finite-difference convergence are outside the proof (bounded concrete check); the adjoint-state formula follows from the proved blocks, C02 symmetry and C09 transposes as a paper lemma.',
                 text='Proof of the building blocks of the adjoint-state gradient: interp_edges_to_vol_averages is the exact transpose of the eta-derivative of the C02 operator (accumulation rule for a symbolic cell; derivative of the spec operator derived mechanically); '
                      'the assembly in Simulation.gradient uses per source-frequency pair its own forward / back-propagated fields and a fresh zero buffer, accumulates every pair exactly once, collects the anisotropy rows according to the model aliasing and '
-                     'applies the chain factor of the mapping (C14 obligations re-run) after the sums, for all four anisotropy cases.'),
+                     'applies the chain factor of the mapping (C14 obligations re-run) after the sums, for all four anisotropy cases; the forward responses are sampled at Receiver.coordinates_abs(source), the position where the adjoint sources are placed '
+                     '(absolute and source-relative receivers, sources with repeated electrodes).'),
     'C09': dict(ref='5 (C09)', tech=TECH, note=NOTE + ' The linear SciPy interpolator is an assumed contract (bounded concrete check); reciprocity follows as a paper lemma from C02 symmetry and the transposes proved here; magnetic point source (discretize) and cubic interpolation not covered.',
                 text='Proof that point_source locates the unique bracketing cell and stores the product of the 1-D hat weights (all other cells zero) for a symbolic grid and position; that _edge_curl_factor is the '
                      'volume-weighted discrete Faraday law using the C02 curl stencil; that get_receiver combines the per-component interpolants with the same rotation() factors and masks exactly the outermost cells; '
-                     'that get_magnetic_field wires them with zeta = V/(mu_r s mu0) and writes nothing of its inputs (incl. the cached cell volumes of the grid).'),
+                     'that get_magnetic_field wires them with zeta = V/(mu_r s mu0) and writes nothing of its inputs (incl. the cached cell volumes of the grid); for several receivers sampled in one call each response is made of its OWN rotation factors '
+                     '(a direction is left out only if its own factor is negligible).'),
     'C10': dict(ref='5 (C10)', tech=TECH, note=NOTE + ' The partition lemma (clipped length fractions of a segment sum to one over the cells) is not proved; dipole/point conversions and the square loop are covered by a bounded concrete check only.',
                 text='Proof that the eight point-source weights of a component sum to one in every branch and are non-negative; that the cell body of _dipole_vector distributes exactly the clipped length fraction '
                      'over the four edges per component of that cell with non-negative weights and writes nothing else; that every consecutive electrode pair of a wire is discretised; that get_source_field scales the vector by '
-                     'strength and -s mu0 and dispatches on the source type; rotation is the documented unit direction.'),
-    'C11': dict(ref='5 (C11)', tech=TECH, note=NOTE + ' Order contracts of Executor.map / tqdm process_map / map are assumed; determinism of a worker and the file hand-over are outside the proof (bounded concrete run only).',
+                     'strength and -s mu0 and dispatches on the source type; a source given by its coordinates reaches the right Tx class with the given strength and length; rotation is the documented unit direction; '
+                     'square loop and dipole / point conversions (closed, square, area, right-handed normal, round trip).'),
+    'C11': dict(ref='5 (C11)', tech=TECH, note=NOTE + ' Order contracts of Executor.map / tqdm process_map / map are assumed; determinism of a worker is outside the proof (bounded concrete run only); the h5 round trip of io.save / io.load is an assumed contract over an abstract scratch directory.',
                 text='Proof that process_map returns the results in input order in all four branches, that _compute, _bcompute and jvec build the i-th task from the i-th source-frequency pair and store the i-th result in that pair\'s slot '
-                     '(three pairs, so a non-involutive permutation cannot hide), and that the worker wrapper forwards exactly its own task; plus a bounded run comparing 1 vs several workers on source-dependent grids bit for bit.'),
+                     '(three pairs, so a non-involutive permutation cannot hide), and that the worker wrapper forwards exactly its own task; file-based hand-over over an abstract scratch directory (fresh or left behind by an earlier simulation): '
+                     'the worker reads its own task file and no other, starts from the field of that task, every file read was written earlier in the same computation, each slot loads the result of its own task whatever the order of completion; '
+                     'plus bounded runs comparing 1 vs several workers and in-memory vs file-based execution (also in a re-used directory) bit for bit.'),
     'C12': dict(ref='5 (C12)', tech=TECH + '; provenance (taint) tags on array storages in the control executor',
                 note=NOTE + ' Numerical callees are summarised by how they propagate provenance; one source / one frequency; in-memory execution; process_map order is C11.',
                 text='Proof that every public operation of Simulation (compute, misfit, gradient, jvec, jtvec, get_efield, clean x3, model update + clean, to_dict) re-establishes the '
@@ -49,7 +57,8 @@ CLAIMED = {
     'C13': dict(ref='5 (C13)', tech=TECH, note=NOTE + ' xarray behaviour (attribute-style access, copy(data=), sel, NaN-skipping sum) is an assumed dependency contract; sqrt/abs/conj are uninterpreted element-wise functions.',
                 text='Proof over all paths and all scalar/array/absent combinations: the standard-deviation getter returns the explicit array or sqrt(nf^2+(re|d|)^2) in a fresh array or None; '
                      'setters reject non-positive values and keep arrays in fresh storage; add_noise writes only data[add_to]; misfit, select and to_dict write none of the noise parameters; '
-                     'the misfit summand is std^-2 |syn-obs|^2 with weights in fresh storage; a selection cuts every data set to exactly the requested labels. Plus bounded checks on real surveys/simulations.'),
+                     'the misfit summand is std^-2 |syn-obs|^2 with weights in fresh storage; a selection cuts every data set to exactly the requested labels; after any history of assignments the getters and the standard deviation are made of the values assigned last. '
+                     'Plus bounded checks on real surveys/simulations.'),
     'C14': dict(ref='5 (C14)', tech=TECH + '; exp/log identities of the Map classes decided by computer algebra (sympy) on terms read from the source',
                 note=NOTE + ' sympy simplification trusted for the transcendental identities (numeric 50-digit cross-check); IEEE facts about NaN comparisons are axioms.',
                 text='For each of the six mappings, read from the current source: forward is the documented map, backward o forward = id on positive conductivities, '
@@ -65,12 +74,14 @@ CLAIMED = {
                 text='Proof along the call chain construct_mesh -> origin_and_widths -> _stretch/_seasurface: per-direction routing and RuntimeError when any direction has no grid; survey domain, centre part (node or cell centre) and computational domain '
                      '(domain -/+ min(lambda_factor*wavelength, max_buffer), or the from-centre variant) on all paths; search nest under a loop invariant for any number of iterations: what is returned is a successful use_up _stretch over the computational domain '
                      'of a successful _stretch over the survey domain for the current permitted cell number, else RuntimeError / None; _stretch for every nx and centre part (cell count, coverage, geometric growth with the given factor, positivity, origin/end consistent); '
-                     '_seasurface warns exactly when the sea surface is not a node of what it returns; skin depth / wavelength / cell width closed forms; the statement as a lemma over these contracts. Plus a bounded check of all postconditions on the real functions.'),
+                     '_seasurface warns exactly when the sea surface is not a node of what it returns; skin depth / wavelength / cell width closed forms; every accepted format of the direction-specific options (bool, tuple, list, dict; symbolic switches) reaches its direction; '
+                     'the statement as a lemma over these contracts. Plus a bounded check of all postconditions on the real functions.'),
     'C18': dict(ref='5 (C18)', tech=TECH + '; the real parser executed on an abstract ConfigParser with an opaque unknown key',
                 note=NOTE + ' Equality of computed results between CLI and API is only covered by the bounded concrete run; configparser / pathlib behaviour is modelled.',
                 text='Proof obligations over the real configuration parser: the recognised key set of every section is observed from the parser itself; every recognised key reaches its destination; any other key is rejected with TypeError in every section; '
                      'terminal values win over file values (path, survey, model, output, save, load, cache, nproc, layered, function); documented keys are recognised and every emitted name (after the hand-over in cli.run) is accepted by the API; '
-                     'the [data] section reaches Survey.select with all four keys whenever it is non-empty.'),
+                     'the [data] section reaches Survey.select with all four keys whenever it is non-empty; every documented option written in the documented format (comma / semicolon / comment styles enumerated) arrives with the API value, '
+                     'with the inline-comment rule of configparser modelled from the constructor arguments the parser really passes.'),
     'C20': dict(ref='5 (C20)', tech=TECH + '; element-wise lifting of boolean masks over the generic frequency',
                 note=NOTE + ' Interpolating-spline and shape-preserving PCHIP behaviour of SciPy and the reference transform of empymod are assumed contracts; precondition fmin <= fmax.',
                 text='Proof over all paths of the frequency bookkeeping properties and of Fourier.interpolate for the three coarse-frequency options: the three groups (below / within / above the band) are disjoint and exhaustive, '
